@@ -178,3 +178,90 @@ def rf11(run):
         run.ob(rule, ('redirect-protocol', fn), ok)
         if not ok:
             run.violation(rule, f, 'thunk redirection', '%s does not patch the thunk through _MIR_change_code/_MIR_update_code' % fn, line=f.line)
+
+
+# ---------------------------------------------------------------------------------------------
+# RF74: a bottom-tested copy loop template is emitted only for a positive count
+# ---------------------------------------------------------------------------------------------
+
+def rf74(run):
+    rule = 'RF74'
+    run.rule(rule, 'mir-x86_64.c: a byte template whose decoded form is a counted loop that decrements the counter and copies before it '
+                   'tests it (do-while) copies at least one element; the function that emits it returns without emitting for a zero '
+                   'count, or every caller passes a count proven non-zero (a zero-size block argument must copy nothing)')
+    tu = run.tu('mir')
+    n = 0
+    for g in tu.globals:
+        t = tu.type(g['t'])
+        if not (t.kind == 'array' and 'uint8_t' in t.s and g.get('init') is not None and g['file'].endswith('mir-x86_64.c') and g.get('func')):
+            continue
+        if g['name'] == 'iregs':
+            continue
+        ins = disas(template_bytes(g), run.scratch)
+        txt = [norm(i) for o, i in ins]
+        offs = [o for o, i in ins]
+        # a backward conditional jump whose target lies behind the load of the counter: sub/dec, then a store, then test, then jg/jne back
+        loop = None
+        for k, i in enumerate(txt):
+            m = re.match(r'j(g|ne|nz|a|ge)\s+0x([0-9a-f]+)', i)
+            if m and int(m.group(2), 16) <= offs[k]:
+                tgt = int(m.group(2), 16)
+                body = [(o, t_) for o, t_ in zip(offs, txt) if tgt <= o < offs[k]]
+                dec = [j for j, (o, t_) in enumerate(body) if re.match(r'(sub \$0x1,|dec )', t_)]
+                store = [j for j, (o, t_) in enumerate(body) if re.match(r'mov\w* %\w+,.*\(', t_)]
+                if dec and store and dec[0] < store[0]:
+                    loop = (tgt, offs[k])
+        if loop is None:
+            continue
+        f = tu.func(g['func'])
+        run.functions_analysed.add(('mir', f.name))
+        # which parameter is the count: the one memcpy'd into the `mov $imm, %reg` in front of the loop
+        cnt = None
+        for x in f.walk():
+            if x['k'] == 'CallExpr' and x.get('callee') == 'memcpy':
+                a = F.call_args(x)
+                dst = F.strip(a[0])
+                src = F.strip(a[1])
+                if src['k'] == 'UnaryOperator' and src['op'] == '&' and dst['k'] == 'BinaryOperator' and dst['op'] == '+':
+                    off = F.const_value(F.strip(dst['c'][1]))
+                    if off is not None and off < loop[0]:
+                        # the immediate of the instruction containing this offset
+                        for o, t_ in zip(offs, txt):
+                            if o <= off < o + 8 and re.match(r'mov \$0x0,%r', t_):
+                                cnt = F.src(F.strip(src['c'][0]))
+        if cnt is None:
+            raise F.AnalysisBroken('%s: count operand of the loop template %s not identified' % (f.name, g['name']))
+        guard = None
+        for x in f.walk():
+            if x['k'] == 'IfStmt' and any(y['k'] == 'ReturnStmt' for y in F.walk(x['c'][1])):
+                c = F.src(F.strip(x['c'][0])).replace(' ', '').strip('()')
+                if c in ('%s==0' % cnt, '!%s' % cnt, '%s<1' % cnt, '%s<=0' % cnt):
+                    pushes = [y for y in f.walk() if y['k'] == 'CallExpr' and y.get('callee') == 'push_insns']
+                    if pushes and x['l'] < pushes[0]['l']:
+                        guard = x
+        n += 1
+        ok = guard is not None
+        why = 'early return at line %d' % guard['l'] if guard is not None else None
+        if not ok:
+            # all callers proven non-zero?
+            from rf_proto import dominating_conditions
+            sites, proven = 0, 0
+            pi = [i for i, p_ in enumerate(f.params) if p_['n'] == cnt]
+            for h in tu.func_list:
+                for y in h.walk():
+                    if y['k'] == 'CallExpr' and y.get('callee') == f.name and pi:
+                        sites += 1
+                        a = F.src(F.strip(F.call_args(y)[pi[0]])).replace(' ', '')
+                        conds = [c_.replace(' ', '').strip('()') for c_, t_ in dominating_conditions(h.cfg, h.cfg.block_of(y)) if t_]
+                        if any(c_ in ('%s!=0' % a, '%s>0' % a, '%s>=1' % a) for c_ in conds):
+                            proven += 1
+            ok = sites > 0 and proven == sites
+            why = 'all %d callers test the count' % sites if ok else None
+        run.ob(rule, (f.name, g['name']), ok, {'template': '%s in %s' % (g['name'], f.name), 'loop': '0x%x..0x%x' % loop, 'count': cnt, 'proof': why})
+        if not ok:
+            run.violation(rule, f, 'loop template %s with a zero count' % g['name'], '%s emits the copy loop %s, which decrements %s and copies one '
+                          'element before testing it, without excluding %s == 0: for a zero-size block the trampoline copies one qword over '
+                          'the neighbouring outgoing stack slot' % (f.name, g['name'], cnt, cnt), line=f.line)
+    if n == 0:
+        raise F.AnalysisBroken('no bottom-tested copy loop template found in mir-x86_64.c')
+    return n
